@@ -320,4 +320,5 @@ func resetMemos() {
 	staleSelfTestMemo = nil
 	c02GateRecords = nil
 	fieldStoreMemo = map[string]bool{}
+	tableMemo = map[*ssa.Global]*constTab{}
 }
